@@ -82,6 +82,11 @@ Theorem C15_id_caches_separate : forall cl R s o,
   end.
 Proof. exact caches_separate. Qed.
 
+(* the hypothesis of C15_id_lookup_value is met in every state a run can reach from the constructors' caches *)
+Theorem C15_id_cache_invariant : forall cl R ops, Forall op_wf ops ->
+  state_ok R (fold_left (fun st o => fst (cstep2 cl R st o)) ops cs0).
+Proof. intros cl R ops Hw. apply run_keeps_invariant; [exact Hw|apply state_ok_init]. Qed.
+
 (* non-vacuity: a SYSCALL + PATH + EXECVE group on a heap holding the three cached maps *)
 Example C15_example :
   let h := [[(L "syscall", L "execve"); (L "items", L "2"); (L "result", L "success"); (L "auid", L "1000")];
@@ -98,6 +103,7 @@ Proof.
   - vm_compute. split; reflexivity.
 Qed.
 
+Print Assumptions C15_id_cache_invariant.
 Print Assumptions C15_id_lookup_value.
 Print Assumptions C15_id_lookup_other_keys.
 Print Assumptions C15_id_caches_separate.
